@@ -1378,3 +1378,237 @@ def rule_zip_len(repo, res):
                                     "the two, so the report silently loses the columns beyond the shorter list (dialects are missing "
                                     "from the table although they were evaluated)", where=f"pvl/pvl_validate.py:{call.lineno}"))
     res.floor("build_line calls with derivable lengths", n, 3)
+
+
+def rule_arg_order(repo, res, modules=None):
+    """ARG-ORDER: a positional argument that is a plain name which is also the name of a parameter of the callee is
+    passed in *that* parameter's position.  Checked for every call the analysis can resolve inside the package: calls of
+    module-level functions of the same module (`loads(s, parser, grammar, decoder)`), `super().__init__(...)` /
+    `super().<method>(...)` along the MRO, `self.<method>(...)`, and constructor calls of package classes.  `f(a, b)` for
+    `def f(b, a)` is legal Python and almost always a transposition: the two values swap roles (quantity_cls used as
+    real_cls, the decoder used as the grammar)."""
+    n = 0
+    mods = modules or [m for m in repo.modules if m not in ("__main__",)]
+
+    def params_of(fn, drop_self):
+        ps = [a.arg for a in fn.args.posonlyargs + fn.args.args]
+        return ps[1:] if drop_self and ps else ps
+
+    def check(call, callee_params, where, label, caller=None):
+        nonlocal n
+        if any(isinstance(a, ast.Starred) for a in call.args):
+            return
+        own = {x.arg for x in caller.args.posonlyargs + caller.args.args + caller.args.kwonlyargs} if caller is not None else set()
+        for i, a in enumerate(call.args):
+            if not isinstance(a, ast.Name) or i >= len(callee_params):
+                continue
+            if a.id not in own:
+                continue             # only a parameter of the caller that is handed on: a local may bear any name
+            if a.id in callee_params and callee_params[i] != a.id:
+                # the value is handed to another parameter than the one that bears its name; unless the callee's own
+                # parameter of that name is also supplied (then it is a deliberate re-mapping)
+                n += 1
+                res.oblige("ARG-ORDER", f"{where}: `{norm(call, 60)}` passes `{a.id}` in the position of `{a.id}`", ok=False)
+                res.add(Finding("ARG-ORDER", where, f"`{norm(call, 60)}`: `{a.id}` lands in parameter `{callee_params[i]}`",
+                                f"{where} calls {label} as `{norm(call, 80)}`: the positional argument `{a.id}` lands in the callee's "
+                                f"parameter `{callee_params[i]}` although the callee has a parameter named `{a.id}` (position "
+                                f"{callee_params.index(a.id) + 1}): two values swap roles", where=f"line {call.lineno}"))
+            else:
+                n += 1
+    for mname in mods:
+        mod = repo.module(mname)
+        # module-level functions calling module-level functions
+        for fname, fn in mod.functions.items():
+            for call in [x for x in ast.walk(fn) if isinstance(x, ast.Call)]:
+                if isinstance(call.func, ast.Name) and call.func.id in mod.functions and call.args:
+                    check(call, params_of(mod.functions[call.func.id], False), f"{mname}.{fname}", f"{call.func.id}()", fn)
+                if isinstance(call.func, ast.Name) and call.func.id in repo.classes and call.args:
+                    c_, init = repo.resolve_method(call.func.id, "__init__")
+                    if init is not None:
+                        check(call, params_of(init, True), f"{mname}.{fname}", f"{call.func.id}()", fn)
+        for cname, cnode in mod.classes.items():
+            if cname not in repo.classes:
+                continue
+            for meth, fn in repo.classes[cname].methods.items():
+                for call in [x for x in ast.walk(fn) if isinstance(x, ast.Call) and x.args]:
+                    f = call.func
+                    if isinstance(f, ast.Attribute) and isinstance(f.value, ast.Call) and norm(f.value.func) == "super":
+                        c_, target = repo.resolve_method(cname, f.attr, after=cname)
+                        if target is not None:
+                            check(call, params_of(target, True), f"{cname}.{meth}", f"{c_}.{f.attr}()", fn)
+                    elif isinstance(f, ast.Attribute) and isinstance(f.value, ast.Name) and f.value.id == "self":
+                        c_, target = repo.resolve_method(cname, f.attr)
+                        if target is not None:
+                            decos = repo.classes[c_].decorators.get(f.attr, []) if c_ in repo.classes else []
+                            check(call, params_of(target, "staticmethod" not in decos), f"{cname}.{meth}", f"{c_}.{f.attr}()", fn)
+                    elif isinstance(f, ast.Name) and f.id in repo.classes:
+                        c_, init = repo.resolve_method(f.id, "__init__")
+                        if init is not None:
+                            check(call, params_of(init, True), f"{cname}.{meth}", f"{f.id}()", fn)
+                    elif isinstance(f, ast.Name) and f.id in mod.functions:
+                        check(call, params_of(mod.functions[f.id], False), f"{cname}.{meth}", f"{f.id}()", fn)
+    res.floor("forwarded parameters in positional arguments of resolved calls", n, 30)
+
+
+def rule_ctor_default(repo, res):
+    """CTOR-DEFAULT: which grammar an object works with when the caller names only a decoder (abstract interpretation of
+    the constructors, vsa.ctor, with a given decoder D whose grammar is G_D and no grammar):
+
+      * PVLParser family and PVLEncoder: self.grammar *is* G_D -- the documented rule "the decoder's grammar is used";
+        a parser that falls back to its own default lexes with one grammar while its decoder decides with another;
+      * ODLEncoder / PDSLabelEncoder / ISISEncoder: self.grammar is an instance of the dialect's own grammar class
+        (ODLGrammar / PDSGrammar / ISISGrammar) whatever decoder is given -- the dialect's keywords and character set
+        are not the caller's to replace by handing over a permissive decoder."""
+    from . import ctor
+    n = 0
+
+    def given_decoder():
+        D = ctor.Inst("OmniDecoder")
+        GD = ctor.Inst("OmniGrammar")
+        D.attrs["grammar"] = GD
+        return D, GD
+    for c in sorted(repo.subclasses("PVLParser")) + ["PVLEncoder"]:
+        if not repo.has_cls(c):
+            raise AnalysisError(f"anchor vanished: class {c}")
+        D, GD = given_decoder()
+        try:
+            inst = ctor.construct(repo, c, decoder=D)
+        except AnalysisError as x:
+            raise AnalysisError(f"CTOR-DEFAULT: constructor of {c} not interpretable: {x}")
+        n += 1
+        got = inst.attrs.get("grammar")
+        ok = got is GD
+        res.oblige("CTOR-DEFAULT", f"{c}(decoder=D).grammar is D.grammar", ok=ok)
+        if not ok:
+            res.add(Finding("CTOR-DEFAULT", f"{c}.__init__", "grammar of a given decoder not taken",
+                            f"{c}(decoder=D) works with `{got!r}` as its grammar instead of D.grammar: the lexer and the token predicates "
+                            "then follow one grammar (reserved characters, comments, character set) while the decoder classifies with "
+                            "another", where=f"pvl/{repo.classes[c].module.name}.py:{repo.classes[c].node.lineno}"))
+    for c, gcls in (("ODLEncoder", "ODLGrammar"), ("PDSLabelEncoder", "PDSGrammar"), ("ISISEncoder", "ISISGrammar")):
+        if not repo.has_cls(c):
+            raise AnalysisError(f"anchor vanished: class {c}")
+        D, GD = given_decoder()
+        try:
+            inst = ctor.construct(repo, c, decoder=D)
+        except AnalysisError as x:
+            raise AnalysisError(f"CTOR-DEFAULT: constructor of {c} not interpretable: {x}")
+        n += 1
+        got = inst.attrs.get("grammar")
+        ok = isinstance(got, ctor.Inst) and got.cls == gcls and got is not GD
+        res.oblige("CTOR-DEFAULT", f"{c}(decoder=D).grammar is a {gcls}", ok=ok)
+        if not ok:
+            res.add(Finding("CTOR-DEFAULT", f"{c}.__init__", f"default grammar is not {gcls}",
+                            f"{c}(decoder=D) writes with `{got!r}` as its grammar instead of a {gcls}: with a decoder of another dialect "
+                            "(the permissive one, say) the block keywords, statement forms and the character set of the output are no "
+                            "longer the dialect's", where=f"pvl/encoder.py:{repo.classes[c].node.lineno}"))
+    res.floor("CTOR-DEFAULT constructor obligations", n, 6)
+
+
+def rule_v_eq(repo, res):
+    """V-EQ: the parser and the encoders never compare a container with another object by == / != (`value != {}`,
+    `module == []`): the two container families define equality differently -- the default family requires the same
+    class (an empty PVLGroup is not equal to {}), the multidict family compares by value (an empty group *is* equal to
+    {}) -- so such a test takes different branches for the same label loaded by pvl and by pvl.new.  Emptiness is asked
+    with len() / truthiness, kind with isinstance."""
+    n = 0
+    for mname in ("encoder", "parser", "__init__", "new"):
+        if mname not in repo.modules:
+            continue
+        mod = repo.module(mname)
+        fns = [(f"{mname}.{k}", v) for k, v in mod.functions.items()]
+        for cname, cnode in mod.classes.items():
+            if cname in repo.classes:
+                fns += [(f"{cname}.{k}", v) for k, v in repo.classes[cname].methods.items()]
+        for label, fn in fns:
+            for c in [x for x in ast.walk(fn) if isinstance(x, ast.Compare) and len(x.ops) == 1 and isinstance(x.ops[0], (ast.Eq, ast.NotEq))]:
+                sides = [c.left, c.comparators[0]]
+                lit = [x for x in sides if isinstance(x, (ast.Dict, ast.List, ast.Tuple, ast.Set)) or
+                       (isinstance(x, ast.Call) and norm(x.func) in ("dict", "list", "tuple", "set", "OrderedDict") and not x.args and not x.keywords)]
+                other = [x for x in sides if x not in lit]
+                if lit and other and isinstance(other[0], (ast.Name, ast.Attribute, ast.Subscript)):
+                    n += 1
+                    res.oblige("V-EQ", f"{label}: `{norm(c, 50)}` does not compare a container with a literal", ok=False)
+                    res.add(Finding("V-EQ", label, f"`{norm(c, 50)}`",
+                                    f"{label} decides with `{norm(c, 60)}`: for a block of the default container family this is never "
+                                    "equal (its __eq__ requires the same class), for a block of the pvl.new family it is equal when the "
+                                    "block is empty -- the same label takes different branches under the two loaders/dumpers",
+                                    where=f"pvl/{mname}.py:{c.lineno}"))
+    res.oblige("V-EQ", "no comparison of a container with a dict / list literal in parser, encoder and entry points", ok=n == 0)
+
+
+def rule_hook_peek(repo, res):
+    """HOOK-PEEK: the value repair hook of the permissive parser only *looks* at the token after the '=': on every path
+    on which OmniParser.parse_value_post_hook returns the empty-value placeholder, the token it read was sent back
+    first.  The token is what ends the statement -- a delimiter, a block keyword, END -- and belongs to the production
+    that follows; if the hook keeps END, parse_end_statement never sees it and the parser reads on into whatever follows
+    the label."""
+    n = 0
+    for cname in sorted(repo.subclasses("OmniParser")):
+        defcls, fn = repo.full_resolved(cname, "parse_value_post_hook")
+        if fn is None or defcls not in set(repo.subclasses("OmniParser")):
+            continue
+        reads = [x for x in ast.walk(fn) if isinstance(x, ast.Assign) and isinstance(x.value, ast.Call) and norm(x.value.func) == "next"]
+        if not reads:
+            raise AnalysisError(f"anchor vanished: the token read of {defcls}.parse_value_post_hook")
+        for r in [x for x in ast.walk(fn) if isinstance(x, ast.Return)]:
+            n += 1
+            sent = False
+            x = r
+            while x is not None and x is not fn and not sent:
+                p = getattr(x, "_parent", None)
+                for field in ("body", "orelse", "finalbody"):
+                    blk = getattr(p, field, None)
+                    if isinstance(blk, list) and x in blk:
+                        for st in blk[:blk.index(x)]:
+                            if isinstance(st, ast.Expr) and isinstance(st.value, ast.Call) and norm(st.value.func) in ("tokens.send", "tokens.throw"):
+                                sent = True
+                x = p
+            res.oblige("HOOK-PEEK", f"{defcls}.parse_value_post_hook: `{norm(r, 50)}` comes after tokens.send(<the token read>)", ok=sent)
+            if not sent:
+                res.add(Finding("HOOK-PEEK", f"{defcls}.parse_value_post_hook", f"`{norm(r, 50)}` without sending the token back",
+                                f"{defcls}.parse_value_post_hook can return the placeholder (`{norm(r, 60)}`) without sending back the token "
+                                "it read: when that token is END (or a block keyword), the statement it begins is lost -- after "
+                                "`key =` directly before END the parser does not see the end of the label and reads on into the data "
+                                "that follows it", where=f"pvl/parser.py:{r.lineno}"))
+    res.floor("returns of the value repair hook", n, 1)
+
+
+def rule_writer_fwd(repo, res):
+    """WRITER-FWD: every writer of pvl_translate hands the loaded label and the output file to the library's dump on
+    every path: each `return` of a Writer subclass's dump() is `return <pvl|json>.dump(<label>, <outfile>, ...)` and there
+    is no path that leaves the method without it (an early return for an "empty" label writes nothing where the library
+    writes an END statement)."""
+    if "pvl_translate" not in repo.modules:
+        raise AnalysisError("anchor vanished: pvl/pvl_translate.py")
+    mod = repo.module("pvl_translate")
+    n = 0
+    for cname, cnode in mod.classes.items():
+        if cname not in repo.classes or cname == "Writer" or "Writer" not in repo.mro(cname):
+            continue
+        fn = repo.classes[cname].methods.get("dump")
+        if fn is None:
+            continue
+        n += 1
+        params = [a.arg for a in fn.args.args if a.arg != "self"]
+        rets = [r for r in ast.walk(fn) if isinstance(r, ast.Return)]
+        bad = []
+        for r in rets:
+            v = r.value
+            ok = isinstance(v, ast.Call) and norm(v.func) in ("pvl.dump", "json.dump", "pvl.new.dump") and len(v.args) >= 2 \
+                and len(params) >= 2 and norm(v.args[0]) == params[0] and norm(v.args[1]) == params[1]
+            if not ok:
+                bad.append(r)
+        last = fn.body[-1] if fn.body else None
+        falls_off = not isinstance(last, (ast.Return, ast.Raise))
+        # a bare `<lib>.dump(...)` as the last statement is also a forward
+        if falls_off and isinstance(last, ast.Expr) and isinstance(last.value, ast.Call) and norm(last.value.func) in ("pvl.dump", "json.dump"):
+            falls_off = False
+        ok = not bad and not falls_off and (bool(rets) or not falls_off)
+        res.oblige("WRITER-FWD", f"pvl_translate.{cname}.dump forwards (label, outfile) to the library's dump on every path", ok=ok)
+        if not ok:
+            what = f"`{norm(bad[0], 50)}`" if bad else "a path that falls off the end"
+            res.add(Finding("WRITER-FWD", f"pvl_translate.{cname}.dump", f"{what} is not the library's dump",
+                            f"pvl_translate.{cname}.dump has {what}: for some labels the tool writes nothing (or something else) where "
+                            "dumping the loaded label with the chosen encoder writes text -- an empty label still has its END statement",
+                            where=f"pvl/pvl_translate.py:{(bad[0] if bad else fn).lineno}"))
+    res.floor("writers of pvl_translate", n, 2)
